@@ -52,7 +52,7 @@ class Namespace:
 
     def _save_where(self, geometry):
         context = self._get_context()
-        context["where"].update(geometry)
+        context.setdefault("where", FeedParserDict()).update(geometry)
 
     def _end_georss_point(self):
         geometry = _parse_georss_point(self.pop("geometry"))
@@ -94,6 +94,22 @@ class Namespace:
         context["where"]["srsName"] = srs_name
         context["where"]["srsDimension"] = srs_dimension
 
+    def _get_srs(self):
+        # The geometry may appear outside of a <where> element,
+        # and the EPSG code may not be a number.
+        where = self._get_context().get("where", {})
+        srs_name = where.get("srsName")
+        srs_dimension = where.get("srsDimension", 2)
+        swap = True
+        if srs_name and "EPSG" in srs_name:
+            try:
+                epsg = int(srs_name.split(":")[-1])
+            except ValueError:
+                pass
+            else:
+                swap = bool(epsg in _geogCS)
+        return swap, srs_dimension
+
     def _start_gml_point(self, attrs_d):
         self._parse_srs_attrs(attrs_d)
         self.ingeometry = 1
@@ -120,13 +136,7 @@ class Namespace:
 
     def _end_gml_pos(self):
         this = self.pop("pos")
-        context = self._get_context()
-        srs_name = context["where"].get("srsName")
-        srs_dimension = context["where"].get("srsDimension", 2)
-        swap = True
-        if srs_name and "EPSG" in srs_name:
-            epsg = int(srs_name.split(":")[-1])
-            swap = bool(epsg in _geogCS)
+        swap, srs_dimension = self._get_srs()
         geometry = _parse_georss_point(this, swap=swap, dims=srs_dimension)
         if geometry:
             self._save_where(geometry)
@@ -136,13 +146,7 @@ class Namespace:
 
     def _end_gml_poslist(self):
         this = self.pop("pos")
-        context = self._get_context()
-        srs_name = context["where"].get("srsName")
-        srs_dimension = context["where"].get("srsDimension", 2)
-        swap = True
-        if srs_name and "EPSG" in srs_name:
-            epsg = int(srs_name.split(":")[-1])
-            swap = bool(epsg in _geogCS)
+        swap, srs_dimension = self._get_srs()
         geometry = _parse_poslist(this, self.ingeometry, swap=swap, dims=srs_dimension)
         if geometry:
             self._save_where(geometry)
@@ -172,6 +176,8 @@ def _parse_poslist(value, geom_type, swap=True, dims=2):
         return _parse_georss_line(value, swap, dims)
     elif geom_type == "polygon":
         ring = _parse_georss_line(value, swap, dims)
+        if ring is None:
+            return None
         return {"type": "Polygon", "coordinates": (ring["coordinates"],)}
     else:
         return None
@@ -180,7 +186,7 @@ def _parse_poslist(value, geom_type, swap=True, dims=2):
 def _gen_georss_coords(value, swap=True, dims=2):
     # A generator of (lon, lat) pairs from a string of encoded GeoRSS
     # coordinates. Converts to floats and swaps order.
-    latlons = (float(ll) for ll in value.replace(",", " ").split())
+    latlons = (float(ll) for ll in (value or "").replace(",", " ").split())
     while True:
         try:
             t = [next(latlons), next(latlons)][:: swap and -1 or 1]
